@@ -28,6 +28,7 @@ def dispatch (line : String) : String :=
   | "sch" :: rest => Sch.handle rest
   | "blk" :: rest => Blk.handle rest
   | "blkc" :: rest => Blk.handleCuts rest
+  | "blkc1" :: rest => Blk.handleCut1 rest
   | "bld" :: rest => Bld.handle rest
   | "prj" :: rest => Bld.handlePrj rest
   | "prjd" :: rest => Bld.handlePrjd rest
